@@ -1168,3 +1168,103 @@ def rule_companion_counter_maintained(ctx, rep, rid: str) -> None:
                     rep.bad(rid, key, f"{m.qual} pops a frame off the call stack (line {c.lineno}) without decreasing {attr}, which {info['pushes'][0][0].name} increases at every push and the limit check reads: frames discarded here (by an exception that unwinds them) stay charged, so a bounded program that catches enough exceptions is stopped with MemoryLimitError", f"{m.module.rel}:{c.lineno}")
         if n == 0:
             raise AnalysisError(f"{rid}: no pop of the call stack found")
+
+
+# ---- an interpreter that joins a running evaluation reads the clock before it runs ----------------------
+
+
+def _poll_methods(ctx) -> Tuple[Dict[int, Func], Dict[int, Func]]:
+    """(P, E): methods of the interpreter that raise TimeLimitError under the deadline comparison alone (no counter in
+    any enclosing condition), and methods that call one of those under conditions that mention no counter either (an
+    entry poll: `if self.start_time is None: .. else: self._poll_deadline()`)."""
+    vmcls = ctx.facts.vm_dispatcher()[0].cls
+    from ..util import guards_of
+
+    def counter_free(n, m) -> bool:
+        for t, _ in guards_of(n, m.node):
+            if any(isinstance(x, ast.Attribute) and ("count" in x.attr or "tick" in x.attr or "budget" in x.attr) for x in ast.walk(t)) or any(isinstance(x, ast.BinOp) and isinstance(x.op, ast.Mod) for x in ast.walk(t)):
+                return False
+        return True
+
+    def reads_clock(t, depth: int = 0) -> bool:
+        txt = norm(t)
+        if "monotonic" in txt or "perf_counter" in txt or "deadline" in txt.lower():
+            return True
+        if depth < 2:
+            for c in ast.walk(t):
+                if isinstance(c, ast.Call) and isinstance(c.func, ast.Attribute) and norm(c.func.value) == "self":
+                    h = ctx.tree.find_method(vmcls, c.func.attr)
+                    if h is not None and any(isinstance(r, ast.Return) and r.value is not None and reads_clock(r.value, depth + 1) for r in h.own_nodes()) and not any(isinstance(x, ast.BinOp) and isinstance(x.op, ast.Mod) for x in h.own_nodes()):
+                        return True
+        return False
+
+    P: Dict[int, Func] = {}
+    for m in vmcls.all_methods:
+        if isinstance(m.node, ast.Lambda):
+            continue
+        for n in m.own_nodes():
+            if isinstance(n, ast.Raise) and n.exc is not None and "TimeLimitError" in norm(n.exc) and counter_free(n, m) and any(reads_clock(t) for t, _ in guards_of(n, m.node)):
+                P[id(m)] = m
+    E: Dict[int, Func] = {}
+    for m in vmcls.all_methods:
+        if isinstance(m.node, ast.Lambda) or id(m) in P:
+            continue
+        for c in m.own_nodes():
+            if isinstance(c, ast.Call) and isinstance(c.func, ast.Attribute) and norm(c.func.value) == "self" and any(p.name == c.func.attr for p in P.values()) and counter_free(c, m):
+                # not inside a loop: once, on entry
+                par = getattr(c, "_parent", None)
+                in_loop = False
+                while par is not None and par is not m.node:
+                    if isinstance(par, (ast.While, ast.For)):
+                        in_loop = True
+                    par = getattr(par, "_parent", None)
+                if not in_loop:
+                    E[id(m)] = m
+    return P, E
+
+
+def rule_nested_interpreter_polls(ctx, rep, rid: str) -> None:
+    """The time limit is looked at every N instructions of ONE interpreter, and an interpreter created while an
+    evaluation runs (eval, Function, host-driven calls such as a sort comparator) counts from zero.  A script that
+    keeps creating such interpreters, each for fewer than N instructions, never reaches the periodic check of any of
+    them: recursion through eval with a short loop per level runs for ever.  So an interpreter that adopts the running
+    evaluation's start time reads the clock once before it runs anything."""
+    rep.rule(rid, "every script-reachable site that creates an interpreter and hands it the running evaluation's start time reads the clock for it before its run loop starts: through an entry method that polls when the start time is already set, or an explicit poll after the adoption", floor=1)
+    vmcls = ctx.facts.vm_dispatcher()[0].cls
+    sr = ctx.facts.script_reachable()
+    P, E = _poll_methods(ctx)
+    loopfuncs = {id(f) for f, _ in ctx.facts.dispatch_loops()}
+    runners = {m.name for m in vmcls.all_methods if not isinstance(m.node, ast.Lambda) and (id(m) in loopfuncs or any(x in loopfuncs for x in ctx.cg.reach([m])))}
+    n = 0
+    for f in ctx.tree.funcs:
+        if isinstance(f.node, ast.Lambda) or id(f) not in sr:
+            continue
+        for a in f.own_nodes():
+            if not (isinstance(a, ast.Assign) and isinstance(a.value, ast.Call) and call_name(a.value) == vmcls.name and len(a.targets) == 1 and isinstance(a.targets[0], ast.Name)):
+                continue
+            v = a.targets[0].id
+            adopts = [x for x in f.own_nodes() if isinstance(x, ast.Assign) and len(x.targets) == 1 and isinstance(x.targets[0], ast.Attribute) and norm(x.targets[0].value) == v and "start" in x.targets[0].attr and isinstance(x.value, ast.Attribute) and x.value.attr == x.targets[0].attr]
+            if not adopts:
+                continue
+            n += 1
+            key = f"{f.qual}:{v} = {vmcls.name}(..):clock-read-on-entry"
+            cfg = ctx.facts.cfg(f)
+
+            def calls_on_v(nd, names) -> bool:
+                return nd.ast is not None and any(isinstance(c, ast.Call) and isinstance(c.func, ast.Attribute) and norm(c.func.value) == v and c.func.attr in names for c in ast.walk(nd.ast if not isinstance(nd.ast, (ast.If, ast.While)) else nd.ast.test))
+
+            pollnames = {m.name for m in P.values()} | {m.name for m in E.values()}
+            polls = {nd.id for nd in cfg.nodes if calls_on_v(nd, pollnames)}
+            starts = [nd for nd in cfg.nodes if nd.ast is not None and any(x is ad for ad in adopts for x in ast.walk(nd.ast))]
+            bad = None
+            for s0 in starts:
+                p = cfg.path_avoiding(s0.id, lambda nd: nd.id not in polls and calls_on_v(nd, runners - pollnames), polls, None, start_succ=True)
+                if p is not None:
+                    bad = p
+            if bad is None and (polls or not any(calls_on_v(nd, runners) for nd in cfg.nodes)):
+                rep.ok(rid, key, {"polls": sorted(pollnames), "at": f"{f.module.rel}:{a.lineno}"})
+            else:
+                line = bad[-1].line if bad else a.lineno
+                rep.bad(rid, key, f"{f.qual} creates an interpreter, gives it the running evaluation's start time (line {adopts[0].lineno}) and runs it (line {line}) without reading the clock first: the new interpreter counts its instructions from zero, so a script that keeps starting such interpreters for fewer instructions than the polling period (recursion through eval with a short loop per level) is never stopped by the time limit", f"{f.module.rel}:{line}")
+    if n == 0:
+        raise AnalysisError(f"{rid}: no script-reachable site adopts a running evaluation's start time")
